@@ -366,6 +366,97 @@ def special_c04(res, tier, seed, workdir, stats):
     res.cov["interpreter"] = "MIRI_NO_STD=1 cargo +nightly miri run --target wasm32-unknown-unknown -Ctarget-feature=+simd128 (real src/wasm.rs)"
 
 
+# ---------------------------------------------------------------- C09
+def gen_c09_miri(r, tier, info):
+    """x86 back ends under Miri (UB detector: out-of-bounds / misaligned / uninitialised reads)"""
+    cases = []
+    sels = ["sse", "avx", "auto"]
+    lens = [0, 1, 3, 4, 7, 8, 12, 15, 16, 17, 19, 20, 23, 24, 27, 28, 31, 32, 33, 47, 63, 64, 65, 100] if tier == "quick" else list(range(0, 100)) + [127, 128, 129, 200]
+    for n in lens:
+        key = rkey(r)
+        data = rbytes(r, n)
+        b = B(f"c09-miri-{n}", [f"len%32={n % 32}"])
+        for hi, s in enumerate(sels):
+            b.op(f"fnew {hi} {s} {kstr(key)}")
+            for p in split_chunks(r, data, r.randrange(0, 3)):
+                b.op(f"append {hi} {hexbytes(p)}")
+            b.op(f"ckpt {hi}")
+            b.op(f"frestoreh {hi + 4} {r.choice(sels)} {hi}")
+            b.op(f"fin {hi} {r.choice((64, 128, 256))}")
+            b.op(f"fin {hi + 4} 256")
+        cases.append(b)
+    return cases
+
+
+def special_c09(res, tier, seed, workdir, stats):
+    configs = ["dev-std-base", "rel-std-base"] if tier == "quick" else ["dev-std-base", "rel-std-base", "rel-nostd-avx2", "dev-nostd-sse41", "rel-std-native", "dev-std-avx2"]
+    built = hh.build_runners(configs)
+    total = 0
+    layouts = {}
+    for c in configs:
+        binp, blog = built[c]
+        if binp is None:
+            res.replay(dict(kind="impl-violates-property", config=c, message="crate does not build in this configuration", log=blog[-2000:]))
+            res.n_oracle_fail += 1
+            continue
+        rc, out, err = hh.sh([binp, f"--guard={seed},{tier}"], timeout=3600)
+        lay = [l for l in out.split("\n") if l.startswith("layout ")]
+        layouts[c] = lay
+        m = re.search(r"guard done cases=(\d+) mismatches=(\d+)", out)
+        ncases = int(m.group(1)) if m else 0
+        total += ncases
+        st = dict(config=c, guard_cases=ncases, exit=rc)
+        stats.append(st)
+        if rc < 0 or rc >= 128 or (m is None and rc != 0):
+            # a fault: re-run verbosely to name the case
+            rc2, out2, err2 = hh.sh([binp, f"--guard={seed},{tier},verbose"], timeout=3600)
+            last = [l for l in out2.split("\n") if l.startswith("case ")][-1:] or ["?"]
+            res.replay(dict(kind="impl-violates-property", config=c, message=f"memory fault (exit {rc}) while hashing data placed against an inaccessible page / at a misaligned address: {last[0]}",
+                            replay_cmd=f"{binp} --guard={seed},{tier},verbose", last_case=last[0]))
+            res.n_oracle_fail += 1
+        elif m and int(m.group(2)) > 0:
+            mm = [l for l in out.split("\n") if l.startswith("MISMATCH")][:5]
+            res.replay(dict(kind="impl-violates-property", config=c, message="result depends on placement / neighbouring memory: " + "; ".join(mm),
+                            replay_cmd=f"{binp} --guard={seed},{tier},verbose"))
+            res.n_oracle_fail += 1
+        # checked premises of the C09 theorems: layout facts
+        for l in lay:
+            kv = dict(t.split("=") for t in l.split()[2:])
+            name = l.split()[1]
+            if name == "key" and kv.get("align") != "32":
+                res.replay(dict(kind="impl-violates-property", config=c, message=f"Key is not 32-byte aligned ({l}) but AvxHash::force_new reads it with an aligned 32-byte load"))
+                res.n_oracle_fail += 1
+            if name == "avx" and "bufoff" in kv:
+                off = re.search(r"Some\((\d+)\)", kv["bufoff"])
+                if off and (int(off.group(1)) % 16 != 0 or int(kv.get("align", "0")) % 16 != 0):
+                    res.replay(dict(kind="impl-violates-property", config=c, message=f"AvxHash packet buffer is not 16-byte aligned ({l}) but AvxHash::remainder reads it with an aligned load"))
+                    res.n_oracle_fail += 1
+    res.cov["guard_cases"] = total
+    res.cov["layouts"] = layouts
+    res.evals += total
+    res.samples.append(dict(guard="placements: slice ending at / starting at a PROT_NONE page boundary, each chunk copied against the boundary, hasher object at the boundary, start alignments x two neighbour fills", layout=layouts.get(configs[0])))
+    for i in range(min(total, 3)):
+        res.keys.add(f"guard-{i}")
+        res.nontrivial.add(f"guard-{i}")
+    # Miri as UB detector for the x86 back ends
+    holder = {}
+
+    def ex(cases, tag):
+        outs, crashed, info = hh.run_miri("x86avx2", cases, workdir, tag, shards=(hh.NPROC if tier == "thorough" else 6))
+        holder["info"] = info
+        holder["crashed"] = crashed
+        return outs, crashed
+    info0 = {"arch": "x86_64", "std": "1", "cpu_sse41": "1", "cpu_avx2": "1", "tf_avx2": "1", "tf_sse41": "1",
+             "_line": "cfg arch=x86_64 std=1 tf_sse41=1 tf_avx2=1 simd128=0 cpu_sse41=1 cpu_avx2=1"}
+    st = check_mod().run_config(res, "C09", tier, seed, "miri-x86_64+avx2", None, info0, workdir, gen_override=gen_c09_miri, executor=ex, label="c09-miri")
+    stats.append(st)
+    for k, rc, err in holder.get("crashed", []):
+        if "Undefined Behavior" in err:
+            ub = err[err.index("Undefined Behavior"):][:600]
+            res.replay(dict(kind="impl-violates-property", config="miri x86_64 +avx2", message="Miri reports " + ub))
+            res.n_oracle_fail += 1
+
+
 # ---------------------------------------------------------------- C08
 def special_c08(res, tier, seed, workdir, stats):
     """static release claim: the #[no_panic] wrappers around every public operation must link"""
@@ -402,4 +493,4 @@ def check_mod():
 
 
 T.PRE.update({"C16": pre_facts, "C17": pre_facts, "C18": pre_facts, "C15": pre_facts})
-T.SPECIAL.update({"C03": special_c03, "C04": special_c04, "C08": special_c08, "C16": special_c16, "C17": special_c17, "C18": special_c18})
+T.SPECIAL.update({"C09": special_c09, "C03": special_c03, "C04": special_c04, "C08": special_c08, "C16": special_c16, "C17": special_c17, "C18": special_c18})
